@@ -138,7 +138,7 @@ def monitor_trace(tr):
             if kind == 'clear':
                 tags['clear'] += 0
                 exp_stats = b['stats'] if op[1] else [0, 0, 0]
-                if a['stats'] != exp_stats or (algo != 'no' and a['mem']):
+                if a['stats'] != exp_stats or a['mem']:
                     viol.append(dict(prop='C15', i=rec['i'], sig=dict(kind='clear-wrong', algo=algo), msg='clear(%r): stats %r mem %r' % (op[1], a['stats'], a['mem'])))
             if kind == 'info':
                 i = out['info']
